@@ -1,22 +1,32 @@
-/* ct.h - event hooks for the constant-time check (C08).  ll2c emits CT_BR at every conditional branch / switch,
- * CT_ADDR at every load, store and memory intrinsic (address) and CT_LEN at every memory intrinsic (length).
- * Phase 0 records the event sequence, phase 1 (same public parameters, independent secrets) must repeat it. */
+/* ct.h - event hooks emitted by ll2c into the C derived from clang IR.
+ *
+ * Constant-time mode (C08): phase 0 runs the function on a fixed reference assignment of the secrets and records the
+ * sequence of events - (site, branch condition) at every conditional branch / switch, (site, object, offset) at every
+ * load, store and memory intrinsic, (site, length) at every memory intrinsic.  Phase 1 runs it on ARBITRARY secrets with
+ * the same public parameters: every event must equal the recorded one, and each branch is then forced to the recorded
+ * direction, so that the comparison stays aligned (and the symbolic execution stays on one path) even when the code under
+ * test does branch on a secret.  "Every secret gives the reference trace" implies "any two secrets give the same trace".
+ *
+ * Write-watch mode (C18, WW_MODE): no store may target the objects registered in ww_obj. */
 #ifndef CT_H
 #define CT_H
 #include <stdint.h>
 #include <stddef.h>
-#ifdef WW_MODE
-/* write-watch mode (C18): no store instruction may target the objects the caller passed as pointer-to-const */
-extern const void *ww_obj[2];
 #ifdef REPLAY
 #include <stdio.h>
 #include <stdlib.h>
+#endif
+#ifdef WW_MODE
+extern const void *ww_obj[2];
+#ifdef REPLAY
 extern size_t ww_size[2];
 #define CT_STORE(id,p) do { for (int w_ = 0; w_ < 2; w_++) if (ww_obj[w_] && (const uint8_t *)(p) >= (const uint8_t *)ww_obj[w_] && (const uint8_t *)(p) < (const uint8_t *)ww_obj[w_] + ww_size[w_]) { printf("REPLAY-FAIL: store into a read-only object (site %d)\n", (int)(id)); fflush(stdout); exit(1); } } while (0)
 #else
 #define CT_STORE(id,p) __CPROVER_assert(!(ww_obj[0] && __CPROVER_POINTER_OBJECT(p) == __CPROVER_POINTER_OBJECT(ww_obj[0])) && !(ww_obj[1] && __CPROVER_POINTER_OBJECT(p) == __CPROVER_POINTER_OBJECT(ww_obj[1])), "no store targets an object that the caller passed as read-only (key schedule / parallel-ECB object): concurrent readers write nothing")
 #endif
 #define CT_BR(id,c) ((void)0)
+#define CT_BRV(id,c) (c)
+#define CT_SWV(id,v) (v)
 #define CT_ADDR(id,p) ((void)0)
 #define CT_LEN(id,n) ((void)0)
 #else
@@ -25,32 +35,31 @@ extern size_t ww_size[2];
 #define CT_MAX 6000
 #endif
 extern unsigned ct_n; extern int ct_phase; extern uint64_t ct_val[CT_MAX];
+static inline uint64_t ct_event(uint64_t v)
+{
+    uint64_t r = v;
+    if (ct_n < CT_MAX) {
+        if (ct_phase == 0) ct_val[ct_n] = v;
+        else {
 #ifdef REPLAY
-#include <stdio.h>
-#include <stdlib.h>
-static inline void ct_event(uint64_t v)
-{
-    if (ct_n < CT_MAX) {
-        if (ct_phase == 0) ct_val[ct_n] = v;
-        else if (ct_val[ct_n] != v) { printf("REPLAY-FAIL: branch or address event %u differs between two secrets (site %u)\n", ct_n, (unsigned)(v >> 48)); fflush(stdout); exit(1); }
-    }
-    ct_n++;
-}
-#define CT_BR(id,c)   ct_event(((uint64_t)(id) << 48) ^ (uint64_t)((c) != 0))
-#define CT_ADDR(id,p) ct_event(((uint64_t)(id) << 48) ^ ((uint64_t)(uintptr_t)(p) & 0xFFFFFFFFFFFFULL))
-#define CT_LEN(id,n)  ct_event(((uint64_t)(id) << 48) ^ (uint64_t)(n))
+            if (ct_val[ct_n] != v) { printf("REPLAY-FAIL: branch or address event %u differs from the reference run (site %u)\n", ct_n, (unsigned)(v >> 48)); fflush(stdout); exit(1); }
 #else
-static inline void ct_event(uint64_t v)
-{
-    if (ct_n < CT_MAX) {
-        if (ct_phase == 0) ct_val[ct_n] = v;
-        else __CPROVER_assert(ct_val[ct_n] == v, "CT: the branch taken / address accessed at this point is the same for every secret");
+            __CPROVER_assert(ct_val[ct_n] == v, "CT: the branch taken / address accessed at this point is the same for every secret");
+#endif
+            r = ct_val[ct_n];
+        }
     }
     ct_n++;
+    return r;
 }
-#define CT_BR(id,c)   ct_event(((uint64_t)(id) << 48) ^ (uint64_t)((c) != 0))
-#define CT_ADDR(id,p) ct_event(((uint64_t)(id) << 48) ^ ((uint64_t)__CPROVER_POINTER_OBJECT(p) << 32) ^ (uint64_t)__CPROVER_POINTER_OFFSET(p))
-#define CT_LEN(id,n)  ct_event(((uint64_t)(id) << 48) ^ (uint64_t)(n))
+#define CT_BR(id,c)   ((void)ct_event(((uint64_t)(id) << 48) ^ (uint64_t)((c) != 0)))
+#define CT_BRV(id,c)  ((uint8_t)(ct_event(((uint64_t)(id) << 48) ^ (uint64_t)((c) != 0)) & 1))
+#define CT_SWV(id,v)  (ct_event(((uint64_t)(id) << 48) ^ ((uint64_t)(v) & 0xFFFFFFFFFFFFULL)) & 0xFFFFFFFFFFFFULL)
+#define CT_LEN(id,n)  ((void)ct_event(((uint64_t)(id) << 48) ^ (uint64_t)(n)))
+#ifdef REPLAY
+#define CT_ADDR(id,p) ((void)ct_event(((uint64_t)(id) << 48) ^ ((uint64_t)(uintptr_t)(p) & 0xFFFFFFFFFFFFULL)))
+#else
+#define CT_ADDR(id,p) ((void)ct_event(((uint64_t)(id) << 48) ^ ((uint64_t)__CPROVER_POINTER_OBJECT(p) << 32) ^ (uint64_t)__CPROVER_POINTER_OFFSET(p)))
 #endif
 #endif /* WW_MODE */
 #endif
